@@ -36,31 +36,45 @@ def hexchars(s):
     return '.'.join('%x' % ord(c) for c in s) if s else '-'
 
 # --- every call into the code under test is guarded by a timer: a modified regex may backtrack exponentially, and the
-#     regex engine checks for signals while matching
-import signal
+#     regex engine checks for signals while matching.  CPU time (ITIMER_PROF), so that a loaded machine does not fire it;
+#     a signal that arrives after the guarded region was left is ignored.
+import signal, contextlib
 
 class Timeout(BaseException):
     pass
 
-def _on_alarm(signum, frame):
-    raise Timeout()
+_armed = [False]
 
-signal.signal(signal.SIGALRM, _on_alarm)
+def _on_alarm(signum, frame):
+    if _armed[0]:
+        _armed[0] = False
+        raise Timeout()
+
+signal.signal(signal.SIGPROF, _on_alarm)
 CALL_LIMIT = 3.0
 TIMED_OUT = []          # inputs on which the code under test exceeded CALL_LIMIT
+
+@contextlib.contextmanager
+def limit(seconds):
+    """raise Timeout inside the block after `seconds` of CPU time"""
+    _armed[0] = True
+    signal.setitimer(signal.ITIMER_PROF, seconds)
+    try:
+        yield
+    finally:
+        _armed[0] = False
+        signal.setitimer(signal.ITIMER_PROF, 0)
 
 def guarded(fn, s, *args):
     """fn(s, *args) under the timer; 'err timeout' if it does not return in CALL_LIMIT seconds"""
     if len(TIMED_OUT) >= 8:
         return 'err timeout-skipped'      # enough concrete slow inputs: do not spend CALL_LIMIT on every further string
-    signal.setitimer(signal.ITIMER_REAL, CALL_LIMIT)
     try:
-        return fn(s, *args)
+        with limit(CALL_LIMIT):
+            return fn(s, *args)
     except Timeout:
         TIMED_OUT.append((getattr(fn, '__name__', '?'), s))
         return 'err timeout'
-    finally:
-        signal.setitimer(signal.ITIMER_REAL, 0)
 
 def representable(s):
     """Lean's Char has no lone surrogates"""
@@ -177,7 +191,7 @@ def py_inputs(chk, n_single, n_multi, n_bad, short_len):
         high = [c for c in cps if c >= 0x180]
         cps = low + rng.sample(high, min(len(high), 700))
     fam['context'] = G.context_strings(G.PY_SLOTS, cps)
-    fam['short'] = G.short_strings(short_len, G.PY_ALPHABET) + G.short_strings(short_len + 2, G.PY_ALPHABET2)
+    fam['short'] = G.short_strings(short_len, G.PY_ALPHABET) + G.short_strings(short_len + (2 if chk.thorough else 1), G.PY_ALPHABET2)
     fam['single'] = G.singles(rng, n_single)
     multi = []
     for _ in range(n_multi):
@@ -555,22 +569,20 @@ def check_py(s, stats=None):
     def count(k):
         if stats is not None:
             stats[k] = stats.get(k, 0) + 1
-    signal.setitimer(signal.ITIMER_REAL, CALL_LIMIT)
     try:
-        fmt = m.FormatString(s)
+        with limit(CALL_LIMIT):
+            fmt = m.FormatString(s)
     except m.Error as exc:
         count('rejected:' + type(exc).__name__)
         return None                       # rejecting is always allowed
     except Timeout:
-        rep.update(kind='time-timeout', observed=f'FormatString did not return within {CALL_LIMIT} s on {len(s)} characters',
+        rep.update(kind='time-timeout', observed=f'FormatString did not return within {CALL_LIMIT} s (CPU) on {len(s)} characters',
                    expected='time linear in the length of the string', key='time:pybrace:' + s[:40])
         return rep
     except Exception as exc:
         rep.update(kind='crash', observed=f'{type(exc).__name__}: {exc}'[:200], expected="only the module's own Error classes",
                    key=f'crash:{type(exc).__name__}:{s[:80]}')
         return rep
-    finally:
-        signal.setitimer(signal.ITIMER_REAL, 0)
     if not oracle_parses(s):
         rep.update(kind='accepted-but-python-rejects', observed=oracle_parse(s), expected='string.Formatter().parse(s) succeeds',
                    key='parse:' + s[:80])
@@ -639,22 +651,20 @@ def check_perl(s, stats=None):
     rep = {'parser': 'perlbrace', 'input': _short(s), 'input_hex': hexchars(s) if len(s) < 2000 else None,
            'replay': f'import lib.strformat.perlbrace as P; P.FormatString({s!r})' if len(s) < 2000 else 'see input'}
     want = ref_perl(s)
-    signal.setitimer(signal.ITIMER_REAL, CALL_LIMIT)
     try:
-        fmt = p.FormatString(s)
-        got = set(fmt.arguments)
+        with limit(CALL_LIMIT):
+            fmt = p.FormatString(s)
+            got = set(fmt.arguments)
     except p.Error:
         got = None
     except Timeout:
-        rep.update(kind='time-timeout', observed=f'FormatString did not return within {CALL_LIMIT} s on {len(s)} characters',
+        rep.update(kind='time-timeout', observed=f'FormatString did not return within {CALL_LIMIT} s (CPU) on {len(s)} characters',
                    expected='time linear in the length of the string', key='time:perlbrace:' + s[:40])
         return rep
     except Exception as exc:
         rep.update(kind='crash', observed=f'{type(exc).__name__}: {exc}'[:200], expected="only the module's own Error class",
                    key=f'perl-crash:{type(exc).__name__}:{s[:80]}')
         return rep
-    finally:
-        signal.setitimer(signal.ITIMER_REAL, 0)
     if stats is not None:
         k = 'perl-accepted' if got is not None else 'perl-rejected'
         stats[k] = stats.get(k, 0) + 1
@@ -779,20 +789,20 @@ def regex_screen():
             hits.append({'pattern': name, 'shape': f'unreadable: {type(exc).__name__}', 'pump': ['a']})
     return hits
 
-def _timed(fn, s, limit):
-    """wall time of fn(s) (own errors are fine), or None on timeout; the regex engine checks signals while matching"""
-    signal.setitimer(signal.ITIMER_REAL, limit)
-    t0 = time.perf_counter()
+def _timed(fn, s, seconds):
+    """CPU time of fn(s) (own errors are fine), or None on timeout; the regex engine checks signals while matching"""
+    t0 = time.process_time()
     try:
-        try:
-            fn(s)
-        except Timeout:
-            return None
-        except Exception:
-            pass
-        return time.perf_counter() - t0
-    finally:
-        signal.setitimer(signal.ITIMER_REAL, 0)
+        with limit(seconds):
+            try:
+                fn(s)
+            except Timeout:
+                raise
+            except Exception:
+                pass
+    except Timeout:
+        return None
+    return time.process_time() - t0
 
 def timing_stream(chk, thorough=False):
     """n, 2n, 4n on pump strings: the time of FormatString must not grow faster than ~linearly.  TEST level."""
